@@ -1,7 +1,7 @@
 ---------------------------- MODULE MC_Grading ----------------------------
 EXTENDS Grading
 AllScripts == {"plain", "override", "override_twice", "suppress", "crashing", "formatter", "mocks", "sections",
-               "pools", "partial", "groups", "tifa_types", "classhook"}
+               "pools", "partial", "groups", "tifa_types", "classhook", "raiser_a", "raiser_b"}
 QuickScripts == {"plain", "override_twice", "suppress", "crashing", "sections", "pools", "mocks"}
 \* what each script of bind/grading.py dirties
 W == [s \in AllScripts |->
@@ -11,14 +11,14 @@ W == [s \in AllScripts |->
           [] s = "suppress" -> {"feedback", "tooldata", "suppressions"}
           [] s = "crashing" -> {"feedback", "tooldata", "suppressions", "overrides", "formatter", "sandbox_mocks", "tracer"}
           [] s = "formatter" -> {"feedback", "tooldata", "formatter"}
-          [] s = "mocks" -> {"feedback", "tooldata", "sandbox_mocks"}
+          [] s \in {"mocks", "raiser_a", "raiser_b"} -> {"feedback", "tooldata", "sandbox_mocks"}
           [] s = "sections" -> {"feedback", "tooldata", "sections", "hooks"}
           [] s = "pools" -> {"feedback", "tooldata", "pools"}
           [] s = "partial" -> {"feedback", "tooldata", "hiddens"}
           [] s = "groups" -> {"feedback", "tooldata"}
           [] s = "tifa_types" -> {"feedback", "tooldata", "builtin_modules"}
           [] OTHER -> {"feedback", "tooldata"}]
-AllSubs == {"ok", "crash", "mathmut", "syntax", "unused", "parts", "mathy", "attrassign", "attrlit", "methodcall", "pltassign", "pltcall"}
+AllSubs == {"ok", "crash", "mathmut", "syntax", "unused", "parts", "mathy", "attrassign", "attrlit", "methodcall", "pltassign", "pltcall", "uselen"}
 \* submissions whose analysis writes / reads the method tables of TIFA's value types
 \* ... and submissions that write / read TIFA's types of the builtin MODULES (attribute assignment on an imported module)
 SW == [s \in AllSubs |-> IF s \in {"attrassign", "attrlit"} THEN {"type_tables"}
